@@ -173,6 +173,35 @@ func r172(c *an.Ctx) {
 	if n == 0 {
 		c.Ok(rule, "pkg/group.Execute|no computed-index stores", fn.Pos(), "")
 	}
+	// the index handed back by the single-result executors is never negative (`i < len` does not stop -1)
+	for _, en := range []string{"ExecuteOne", "ExecuteFast", "ExecuteRace"} {
+		ef := c.Prog.Func(groupPkg, "", en)
+		if ef == nil {
+			continue
+		}
+		bad := ""
+		for _, r := range an.Returns(ef) {
+			if len(r.Results) != 3 {
+				continue
+			}
+			for _, v := range an.ValuesAt(r.Results[1]) {
+				if k, isC := an.ConstInt(v); isC {
+					if k < 0 {
+						bad = fmt.Sprintf("returns index %d at %s", k, c.Prog.Rel(r.Pos()))
+					}
+					continue
+				}
+				if isRangeIndex(v) {
+					continue
+				}
+				if _, _, f, isF := an.FieldOf(v); isF && f == "i" {
+					continue
+				}
+				bad = "returns a computed index at " + c.Prog.Rel(r.Pos())
+			}
+		}
+		c.Check(bad == "", rule, "pkg/group."+en+"|the returned index is a member position, never negative", ef.Pos(), "", en+" "+bad+": Execute stores the result at that index of a slice with one slot per member, and its `i < len` guard does not stop a negative index (panic: index out of range [-1])")
+	}
 }
 
 func r173(c *an.Ctx) {
@@ -380,7 +409,25 @@ func r174(c *an.Ctx) {
 			}
 		}
 	}
-	c.Check(okFirst && guardOK, rule, name+"|the first error is kept", fn.Pos(), "", "a later error overwrites the first one (the assignment is not guarded by firstError == nil)")
+	// the first error is recorded for every failing response, not only for the one that exhausts the budget
+	an.Instrs(fn, func(in ssa.Instruction) {
+		ph, ok := in.(*ssa.Phi)
+		if !ok || !an.IsErrorType(ph.Type()) {
+			return
+		}
+		for i, e := range ph.Edges {
+			if _, _, f, isF := an.FieldOf(e); !isF || f != "err" {
+				continue
+			}
+			pred := ph.Block().Preds[i]
+			for _, ed := range an.GuardingEdges(pred.Instrs[0]) {
+				if bo, isBO := ed.If.Cond.(*ssa.BinOp); isBO && (bo.X == ssa.Value(allowed) || bo.Y == ssa.Value(allowed)) {
+					okFirst = false
+				}
+			}
+		}
+	})
+	c.Check(okFirst && guardOK, rule, name+"|the first error is kept", fn.Pos(), "", "the error returned is not the first one observed: a later error overwrites it, or it is only recorded once the error budget is exceeded (then the error that tipped the balance is returned)")
 	// results stored at the response's own index
 	okIdx := false
 	an.Instrs(fn, func(in ssa.Instruction) {
@@ -421,6 +468,20 @@ func r174(c *an.Ctx) {
 					if bo, ok := e.If.Cond.(*ssa.BinOp); ok && bo.Op == token.GTR && bo.Y == ssa.Value(allowed) && e.Branch {
 						inLoop = true
 					}
+				}
+			}
+		}
+	})
+	// … whenever the budget is exceeded, not only when it is the first failure
+	an.Instrs(fn, func(in ssa.Instruction) {
+		x, ok := in.(*ssa.Call)
+		if !ok || cancel == nil || !sameCtx(x.Call.Value, cancel) {
+			return
+		}
+		for _, e := range an.GuardingEdges(x) {
+			if t, _, isNil := an.NilTest(e.If.Cond); isNil && an.IsErrorType(t.Type()) {
+				if _, isPhi := t.(*ssa.Phi); isPhi {
+					inLoop = false
 				}
 			}
 		}
